@@ -140,8 +140,8 @@ class TransactionManager:
 
     def error_transaction(self, exc):
         self._transition_to(TransactionState.ABORTABLE_ERROR)
-        self._txn_partitions.clear()
-        self._txn_consumer_group = None
+        # NOTE: partitions and the group already added to the transaction stay
+        # recorded, so the following abort does send EndTxn for them
         self._pending_txn_partitions.clear()
         for _, _, fut in self._pending_txn_offsets:
             fut.set_exception(exc)
